@@ -127,7 +127,7 @@ func (b Builder) abiCommonFields(t types.Type, name string, hasUncommon bool) (f
 	// Str_       string
 	fields = append(fields, b.Str(ab.Str(t)).impl)
 	// PtrToThis_ *Type
-	if _, ok := t.(*types.Pointer); ok {
+	if _, ok := types.Unalias(t).(*types.Pointer); ok {
 		fields = append(fields, prog.Nil(prog.AbiTypePtr()).impl)
 	} else {
 		fields = append(fields, b.abiType(types.NewPointer(t)).impl)
